@@ -1732,6 +1732,15 @@ async fn access_file_case(case: &Case, case_hash: u64, out: &mut Outcome) -> Res
     )?;
     let mut effective: std::collections::BTreeMap<&'static str, bool> = Default::default();
     let mut before = w.snap().await?;
+    // stop the server that owns the pristine directory before copying it
+    {
+        let scratch = hb(spawn_server(ServerOptions::default()).await, "scratch server")?;
+        let old = std::mem::replace(&mut w.server, scratch);
+        if let Some(tmp) = old.shutdown().await {
+            keep_dir(tmp);
+        }
+        wait_quiescent(&pristine).await;
+    }
     for (i, (rname, req, mutating)) in reqs.iter().enumerate() {
         let copy = copies.path().join(format!("server-{i}"));
         hb(copy_dir_all(&pristine, &copy), "copy data dir")?;
@@ -1829,6 +1838,20 @@ fn run_case(case: &Case, mode: Mode) -> (CaseInfo, Vec<Failure>, Outcome) {
     if let Err(f) = res {
         failures.push(f);
     }
+    if std::env::var("VERIF_DEBUG").is_ok() {
+        for f in &failures {
+            eprintln!("C11 failure: {} : {}", f.signature, f.message);
+        }
+        for n in &out.notes {
+            eprintln!("C11 note: {n}");
+        }
+        eprintln!(
+            "C11 requests={} controls={} effective={}",
+            out.records.len(),
+            out.controls,
+            out.control_changed
+        );
+    }
     let mut info = CaseInfo::default();
     info.nontrivial = out.records.iter().any(|r| r.info.nontrivial);
     info.inner_evals = out.records.len() as u64;
@@ -1873,6 +1896,7 @@ fn run(shard: &Shard, rep: &mut Report) {
     silence_stdout();
     rep.exhaustive = Some(true);
     let side: RefCell<(Vec<ReqRecord>, Vec<String>, bool)> = RefCell::new((vec![], vec![], false));
+    let harness_errors: RefCell<Vec<String>> = RefCell::new(vec![]);
     let total_routes = shard.tier.pick(4, 33);
     let total_access = shard.tier.pick(1, 3);
     // the access-file cases go to the last shards
@@ -1888,7 +1912,24 @@ fn run(shard: &Shard, rep: &mut Report) {
         ("access-file", Mode::AccessFile, access_share),
     ] {
         drive(shard, rep, sub, n, case_strategy(shard.index % 2 == 1).no_shrink(), |case| {
-            let (info, failures, out) = run_case(case, mode);
+            let (info, mut failures, out) = run_case(case, mode);
+            // a failure of the harness itself (refused positive control,
+            // server did not start, ...) is not a verdict on the property:
+            // the run becomes inconclusive
+            let harness: Vec<Failure> = failures
+                .iter()
+                .filter(|f| f.signature.starts_with("harness/"))
+                .cloned()
+                .collect();
+            failures.retain(|f| !f.signature.starts_with("harness/"));
+            for f in harness {
+                harness_errors.borrow_mut().push(format!(
+                    "{sub}: {}: {} (case {})",
+                    f.signature,
+                    f.message,
+                    truncate_json(&serde_json::to_value(case).unwrap_or(Value::Null), 300)
+                ));
+            }
             let res = choose_failure(shard, failures);
             let mut s = side.borrow_mut();
             let known_or_ok = match &res {
@@ -1924,6 +1965,7 @@ fn run(shard: &Shard, rep: &mut Report) {
         rep.notes.push("unauthenticated by design (not asserted): GET /, GET /api/v1, GET /api/v1/docs, /api/v1/docs/openapi.json, GET /api/v1/sync/connections, GET /api/v1/relay".into());
     }
     rep.notes.extend(notes);
+    rep.inconclusive.extend(harness_errors.into_inner());
 }
 
 fn replay(shard: &Shard, sub: &str, case: &Value) -> CheckResult {
